@@ -85,7 +85,7 @@ PreserveClauses(p, fmt, a, b) ==
      <<p \o ".preserve.ctcshape", \A i \in DOMAIN b.ctcs : WellShaped(b.ctcs[i].ast)>>,
      <<p \o ".preserve.ctcs",   Len(a.ctcs) = Len(b.ctcs) /\ (\A i \in DOMAIN b.ctcs : WellShaped(b.ctcs[i].ast)) =>
                                    \A i \in DOMAIN a.ctcs : Equiv(a.ctcs[i].ast, b.ctcs[i].ast)>>,
-     <<p \o ".preserve.ctcnames", fmt \in {"json", "glencoe"} /\ Len(a.ctcs) = Len(b.ctcs) =>
+     <<p \o ".preserve.ctcnames", fmt \in {"json", "glencoe", "xml"} /\ Len(a.ctcs) = Len(b.ctcs) =>
                                    \A i \in DOMAIN a.ctcs : a.ctcs[i].name = b.ctcs[i].name>> >>
 
 PropOfFmt(fmt) == CASE fmt = "uvl" -> "C01" [] fmt = "json" -> "C05" [] fmt = "afm" -> "C06"
